@@ -67,7 +67,7 @@ def shape_baseline(unit_name, vc):
     return b.get("functions", {})
 
 
-def lost_models(ref, now):
+def lost_models(ref, now, builds_text=False):
     """modelling substitutions that applied less often than on the reference tree"""
     if not ref:
         return []
@@ -84,7 +84,8 @@ def lost_models(ref, now):
         # ... and text formatting: `format!` is modelled as an UNINTERPRETED function of its literal and arguments (nfmt!).  A function that builds the same text another way
         # (push_str, join, concatenation - all of which Verus gives their concrete meaning) can never be related to that model, so a clause about the text fails although nothing
         # changed (harmless/C04/h7: get_replicate_increment_message re-spelled with push_str raised VIOLATIONs in eleven properties)
-        if re.search(r"(==|!=)", pattern) or re.match(r"format(_args)?!\(", pattern):
+        # (only when the function now BUILDS a text by such other means: a format! that was simply removed - a line no longer sent - is a change of the code to be judged)
+        if re.search(r"(==|!=)", pattern) or (builds_text and re.match(r"format(_args)?!\(", pattern)):
             out.append("%s: %d -> %d" % (k[:90], n, now.get(k, 0)))
     return out
 
@@ -285,6 +286,7 @@ def _run_unit(unit_name, rlimit=None, extra_args=()):
     #     these as "any string" - so a clause about the text it builds cannot be attributed to the property: undecided.  (A modelled construct that was merely REMOVED - a sleep,
     #     a call - leaves nothing unmodelled behind and is judged normally.)
     unmodelled = {f["path"]: f["unmodelled"] for f in u.functions if f.get("unmodelled")}
+    builds_text = {f["path"]: True for f in u.functions if f.get("builds_text")}
     # (c) a function in which a substitution that models a COMPARISON (`==` / `!=` in its pattern) applied less often than on the reference tree (vk/shape_baseline.json, taken
     #     on the unchanged tree; ignored when the .vc file changed since) may have the comparison left in another spelling (a renamed local defeats `value == token`), and Verus
     #     takes `==` through a PartialEq impl without an equality spec as "any bool": what fails in it is undecided.  Other substitutions are not guarded this way: when their
@@ -296,7 +298,7 @@ def _run_unit(unit_name, rlimit=None, extra_args=()):
         fn = f.get("fn")
         if f.get("kind") == "assertion" and f.get("origin_kind") == "ghost" and f.get("label") == "proof-step":
             infra.append("proof hint no longer goes through in %s (%s): undecided, not a violation" % (fn, (f.get("detail") or "")[:120])); continue
-        lost = lost_models(base.get(fn), shapes.get(fn)) if base is not None else []
+        lost = lost_models(base.get(fn), shapes.get(fn), builds_text.get(fn, False)) if base is not None else []
         if lost:
             infra.append("%s: %s fails, but a modelling substitution applied less often than on the reference tree (%s): undecided, not a violation" % (
                 fn, f.get("obligation"), "; ".join(lost)[:300])); continue
